@@ -328,14 +328,20 @@ class CurveFitting(object):
         -0.767
         """
 
-        n = self._N
-        sxy = self._U
-        sx = self._P
-        sy = self._T
-        sx2 = self._Q
-        sy2 = self._W
-        return ((n * sxy - sx * sy) / (sqrt(n * sx2 - sx * sx)
-                                       * sqrt(n * sy2 - sy * sy)))
+        # Constant abscissae (or ordinates) have no correlation coefficient
+        if min(self._x) == max(self._x) or min(self._y) == max(self._y):
+            raise ZeroDivisionError("Input data leads to a division by zero")
+        # Work with the deviations from the mean values: The differences of
+        # the raw sums (n*sxy - sx*sy, ...) cancel catastrophically when the
+        # data are far from the origin, even yielding |r| > 1
+        xm = self._P / self._N
+        ym = self._T / self._N
+        dx = [x - xm for x in self._x]
+        dy = [y - ym for y in self._y]
+        sxy = fsum([a * b for a, b in zip(dx, dy)])
+        sx2 = fsum([a * a for a in dx])
+        sy2 = fsum([b * b for b in dy])
+        return sxy / (sqrt(sx2) * sqrt(sy2))
 
     def linear_fitting(self):
         """This method returns a tuple with the 'a', 'b' coefficients of the
